@@ -397,6 +397,7 @@ def run_impl(case, pool, log=None):
             li = ConcatenatedLazyIndexer(subs, transforms=ts)
         res['shape'] = list(li.shape)
         res['dtype'] = dt_code(li.dtype)
+        res['len'] = int(len(li))
     except Exception as e:
         res['out'] = ['err', type(e).__name__ + ':init']
         return res
@@ -656,11 +657,25 @@ def judge(ctx, case, impl, mo):
             if impl['shape'] != mshape or impl['dtype'] != mo[3]:
                 ctx.disagree('what=tie;shape_dtype_property', case, [impl['shape'], impl['dtype']], [mshape, mo[3]],
                              'model shape/dtype properties differ from implementation', kind='tie')
-    # shape / dtype properties equal those of self[:]
+            if len(mo) > 5 and impl.get('len') != mo[5]:
+                ctx.disagree('what=tie;len', case, impl.get('len'), mo[5], 'model len() differs from implementation',
+                             kind='tie')
+        if case['kind'] == 'lazy' and len(mo) > 4:
+            outer = canon_model(mo[4])
+            if sb:
+                outer = nowidth(outer)
+            if outer != model:
+                ctx.disagree('what=tie;nd_loop_vs_outer_product;' + signature(case, 'model_differs', spec), case, model, outer,
+                             'the N-d chunk loop of the model and the outer product of its per-axis gathers disagree',
+                             kind='tie')
+    # shape / dtype properties (and len()) equal those of self[:]
     if 'shape' in impl and impl.get('full', ['err'])[0] == 'ok':
         if impl['full'][2] != impl['shape'] or impl['full'][1] != impl['dtype']:
             ctx.disagree('indexer=%s;what=shape_dtype_vs_full' % case['kind'], case, [impl['shape'], impl['dtype']],
                          impl['full'][1:3], 'shape/dtype properties differ from those of self[:]')
+        if impl['full'][2] and impl.get('len') != impl['full'][2][0]:
+            ctx.disagree('indexer=%s;what=len_vs_full' % case['kind'], case, impl.get('len'), impl['full'][2][0],
+                         'len() differs from the length of self[:]')
     ctx.traces_validated += 1
     nontriv = (out[0] == 'ok' and len(out[3]) > 0 and any(ix != ('s', None, None, None) for ix in case['index'])) \
         or (not indom)
